@@ -236,6 +236,15 @@ func (e *Engine) setupIntrinsics() {
 	in["runtime.KeepAlive"] = func(e *Engine, fr *frame, a []Value) Value { return nil }
 	in["runtime.SetFinalizer"] = func(e *Engine, fr *frame, a []Value) Value { return nil }
 	in["os.Getpid"] = func(e *Engine, fr *frame, a []Value) Value { return e.c64(4242) }
+	// errgroup (x/sync v0.14) records debug.Stack() of a worker that panicked before it re-panics in Wait
+	in["runtime/debug.Stack"] = func(e *Engine, fr *frame, a []Value) Value {
+		msg := "goroutine stack (symbolic executor)\n"
+		sl := make(Slice, len(msg))
+		for i := range sl {
+			sl[i] = e.ts.Const(8, uint64(msg[i]))
+		}
+		return sl
+	}
 	in["os.Exit"] = func(e *Engine, fr *frame, a []Value) Value { panic(pathEnd{"os.Exit"}) }
 	in["os/user.Current"] = func(e *Engine, fr *frame, a []Value) Value {
 		// (nil, error): node.init falls back to "UNKNOW"
